@@ -32,6 +32,7 @@ type devent struct {
 	Peer  uint16
 	Round uint8
 	Bcast bool
+	Data  []byte // SEND only
 }
 
 type drun struct {
@@ -104,7 +105,7 @@ func (d *drun) send(from uint16, msg []byte, bcast bool, to uint16) {
 	}
 	d.mu.Lock()
 	defer d.mu.Unlock()
-	d.log = append(d.log, devent{Kind: "SEND", Node: from, Round: d.round(from, msg), Bcast: bcast})
+	d.log = append(d.log, devent{Kind: "SEND", Node: from, Round: d.round(from, msg), Bcast: bcast, Data: append([]byte{}, msg...)})
 	for _, dst := range dsts {
 		m := dmsg{from: from, to: dst, data: append([]byte{}, msg...), bcast: bcast}
 		g := d.gseq
@@ -288,6 +289,37 @@ func (d *drun) revealBeforeCommitments(honest map[uint16]bool) (uint16, bool) {
 		}
 	}
 	return 0, false
+}
+
+// keyInEarlierMessage: content monitor for the same clause. The bytes an honest party finally reveals (its round-3 body, cut into
+// 32-byte windows) must not occur inside anything it transmitted before it held the commitments of all other participants.
+func (d *drun) keyInEarlierMessage(honest map[uint16]bool) (uint16, uint8, int, bool) {
+	d.mu.Lock()
+	defer d.mu.Unlock()
+	reveal := map[uint16][]byte{}
+	for _, e := range d.log {
+		if e.Kind == "SEND" && e.Round == 3 && honest[e.Node] && reveal[e.Node] == nil && len(e.Data) > 33 {
+			reveal[e.Node] = e.Data[1:]
+		}
+	}
+	got := map[uint16]map[uint16]bool{}
+	for _, e := range d.log {
+		switch {
+		case e.Kind == "ONMSG" && e.Round == 2:
+			if got[e.Node] == nil {
+				got[e.Node] = map[uint16]bool{}
+			}
+			got[e.Node][e.Peer] = true
+		case e.Kind == "SEND" && honest[e.Node] && e.Round != 3 && len(got[e.Node]) < len(d.parties)-1:
+			body := reveal[e.Node]
+			for off := 0; off+32 <= len(body); off += 32 {
+				if bytes.Contains(e.Data, body[off:off+32]) {
+					return e.Node, e.Round, off, true
+				}
+			}
+		}
+	}
+	return 0, 0, 0, false
 }
 
 func curGID() uint64 {
